@@ -418,7 +418,7 @@ class Gen:
         rng = self.rng
         k = rng.randint(1, 4)
         names = NAMES[:k]
-        mode = rng.choice(["rearrange", "rearrange", "diag", "concat_in", "concat_out", "ellipsis", "unit", "concat2"])
+        mode = rng.choice(["rearrange", "rearrange", "diag", "diag2", "concat_in", "concat_out", "ellipsis", "unit", "concat2"])
         if mode == "concat2":
             # two concatenated axes in one tensor: blocks pair with the other side's tensors in order, first '+' axis outermost
             A, Bn = ["p", "q"], ["r", "s"]
@@ -449,6 +449,18 @@ class Gen:
             seq = list(base)
             for q in pos:
                 seq.insert(min(q, len(seq)), rep)
+            din = [("ax", n, False) for n in seq]
+            out = self.gen_dims(self.shuffled(names))
+            return names, self._id_inst([din], [out], [])
+        if mode == "diag2":
+            # two different repeated names, possibly interleaved ('a b a b c'), with further axes around them
+            k = max(k, 2)
+            names = NAMES[:k]
+            r1, r2 = rng.sample(names, 2)
+            seq = self.shuffled(names)
+            for rep in (r1, r2):
+                for _ in range(rng.randint(1, 2)):
+                    seq.insert(rng.randint(0, len(seq)), rep)
             din = [("ax", n, False) for n in seq]
             out = self.gen_dims(self.shuffled(names))
             return names, self._id_inst([din], [out], [])
